@@ -1260,6 +1260,8 @@ def pdict_to_sdict(o: PDict, ksort, vsort) -> SDict:
 
 def _default_of(sort):
     sort = parse_sort(sort)
+    if isinstance(sort, tuple) and sort[0] == "u":
+        return Opaque(sort[1], z3.Const("default_" + sort[1], z3sort(sort)))
     if sort == "int":
         return 0
     if sort == "bool":
@@ -1374,6 +1376,15 @@ def unpack(ex, st, target, ref):
         return
     if v is None or natural_sort(v) in ("int", "bool", "real"):
         yield ex.raise_(st, "TypeError")
+        return
+    if isinstance(v, Opaque):
+        # an abstract iterable: wrong arity raises, otherwise its items are abstract values of it
+        from .contracts import pure_result
+
+        st2 = st.fork()
+        yield ex.raise_(st2, "ValueError")
+        items = [pure_result(ex, st, f"item{i}_of_{v.kind}", "u:Any", [v]) for i in range(len(elts))]
+        yield from _assign_all(ex, st, elts, items)
         return
     raise U(f"unpack of {v!r}")
 
